@@ -116,6 +116,9 @@ func discharge(fr *FuncResult, o *Obligation, dir string, timeoutMs int, idx int
 	if o.Solver == "syntactic" || o.Status == "unsat" && o.Solver != "" {
 		return
 	}
+	if o.TimeoutMs > timeoutMs {
+		timeoutMs = o.TimeoutMs
+	}
 	if len(o.Subs) > 0 {
 		t0 := time.Now()
 		o.Status = "unsat"
